@@ -223,6 +223,7 @@ def c05(g, tier):
         yield build_session(f"C05/rand/{i}", k, calls, g=g)
     yield from midsize_sessions(g, "C05/mid", ["nack", "fir"])
     yield from retry_sessions(g, 150 if tier == "quick" else 4000, ["fb"], "C05/retry")
+    yield from nack_insert_sessions(g, 12 if tier == "quick" else 200, "C05/ins")
     yield from nack_sibling_sessions(g, 60 if tier == "quick" else 2000, "C05/sib")
     yield from nack_regroup_sessions(g, "C05/regroup")
     yield from big_sli_sessions(g, "C05/bigsli")
@@ -275,6 +276,7 @@ def c06(g, tier):
     yield from retry_sessions(g, 150 if tier == "quick" else 4000, ["sr", "rr", "sdes", "bye", "app", "unk", "fb", "custom"], "C06/retry")
     yield from nack_sibling_sessions(g, 80 if tier == "quick" else 2000, "C06/sib")
     yield from nack_tiny_universe_sessions(g, 10 if tier == "quick" else 100, "C06/tiny")
+    yield from nack_insert_sessions(g, 12 if tier == "quick" else 200, "C06/ins")
     yield from nack_regroup_sessions(g, "C06/regroup")
     for sess in c14_big(g):
         yield [o for o in sess if o["op"] not in ("cparse", "cnext")] + [{"op": "write_into", "rel": 5, "len": 64, "fill": 1}]
@@ -311,6 +313,7 @@ def c07_extra(g, tier):
     yield from nack_sibling_sessions(g, 60 if tier == "quick" else 2000, "C07/sib")
     yield from type0_sessions(g, "C07/type0")
     yield from nack_tiny_universe_sessions(g, 4 if tier == "quick" else 100, "C07/tiny")
+    yield from nack_insert_sessions(g, 6 if tier == "quick" else 200, "C07/ins")
     yield from nack_regroup_sessions(g, "C07/regroup")
 
 
@@ -453,6 +456,7 @@ def c20(g, tier):
         yield build_session(f"C20/firlong/{i}", "pfb", calls, rt=True)
     yield from midsize_sessions(g, "C20/mid", ["fir"])
     yield from retry_sessions(g, 150 if tier == "quick" else 4000, ["sr", "rr", "sdes", "bye", "app", "unk", "fb", "custom"], "C20/retry")
+    yield from nack_insert_sessions(g, 12 if tier == "quick" else 200, "C20/ins")
     for i in range(n):
         r = g.r
         if r.random() < 0.1:
@@ -870,6 +874,34 @@ def nack_tiny_universe_sessions(g, n, sidp):
         yield ops
 
 
+def nack_insert_sessions(g, n, sidp, per=90):
+    """NACK sets clustered within a few (PID, BLP) windows, added in a random order (in-order runs, then a number in
+    the middle, then a new maximum ...) with the FCI builder observed after EVERY add: an insertion regroups the
+    words behind it, and whatever was counted before must be counted again.  Round trip after each builder."""
+    r = g.r
+    for i in range(n):
+        ops = [reset(f"{sidp}/{i}")]
+        for _ in range(per):
+            base = r.choice([0, 100, 1000, 65500])
+            k = r.choice([4, 5, 5, 6, 7])
+            span = r.choice([24, 40, 40, 60])
+            adds = [(base + v) % 65536 for v in r.sample(range(0, span), k)]
+            mode = r.random()
+            if mode < 0.4:
+                adds.sort()
+                j = r.randrange(1, k)
+                adds.append(adds.pop(r.randrange(0, j)))       # ascending, then one from the front part last
+                if r.random() < 0.5:
+                    adds.append((adds[-2] + r.randrange(1, 20)) % 65536)   # ... and then a new maximum
+            fci = {"f": "nack", "adds": adds}
+            if r.random() < 0.7:
+                fci["probes"] = list(range(len(adds) + 1)) if r.random() < 0.5 else sorted(r.sample(range(len(adds) + 1), 2))
+            ops += calls_to_ops("tfb", [{"c": "new", "fci": fci, "owned": False}]) + [
+                {"op": "calc_size"}, {"op": "write_into", "rel": r.choice([0, 0, 4]), "len": 64, "fill": r.choice([0, 1])},
+                {"op": "parse", "kind": "tfb", "src": "image"}]
+        yield ops
+
+
 def exact_max_sessions(g, sidp):
     """configurations that fit the 65536-word maximum exactly, with and without padding, and one word more"""
     for pad in (0, 4, 8):
@@ -1151,12 +1183,32 @@ def fci_sessions(g, n, sidp, op="parse"):
         pad = 0 if r.random() < 0.7 else r.choice([4, 8, 12])
         total = 12 + len(fci) + pad
         b = hdr(2, pad > 0, fmt, PT[kind], total // 4 - 1) + g.u32bytes() + g.u32bytes() + fci + ([0] * (pad - 1) + [pad] if pad else [])
+        if pad == 0 and fci and r.random() < 0.25:
+            # a padding count that is not a multiple of 4: the last octets of the last word are to be ignored
+            b[0] |= 0x20
+            b[-1] = r.choice([1, 2, 3, 5, 6, 7, len(fci) - 1, len(fci)]) % 256 or 1
         ops = [reset(f"{sidp}/{i}"), ({"op": "parse", "kind": kind, "b": b} if op == "parse" else {"op": "parse_all", "b": b})]
         if r.random() < 0.5:
             f = r.choice(["nack", "fir", "sli", "rpsi", "pli"])
             region = fci if r.random() < 0.6 else g.bytes_(r.randrange(0, 30))
             ops.append({"op": "parse", "kind": f, "b": region})
         yield ops
+
+
+def irregular_pad_fci_sweep(g, sidp, op="parse"):
+    """every FCI type under every padding count 1 .. length of the FCI area (multiples of 4 or not), few words"""
+    for kind, fmt in (("tfb", 1), ("pfb", 1), ("pfb", 2), ("pfb", 3), ("pfb", 4)):
+        for nw in (1, 2, 3):
+            for c in range(1, 4 * nw + 1):
+                fci = [(37 * j + 11) % 251 + 1 for j in range(4 * nw)]
+                if fmt == 3:
+                    fci[0] = 8 * max(0, 4 * nw - c - 2 - 1) % 256 if c % 2 else 0
+                b = hdr(2, True, fmt, PT[kind], (12 + 4 * nw) // 4 - 1) + [0, 0, 0, 1, 0, 0, 0, 2] + fci
+                b[-1] = c
+                o = {"op": op, "b": b}
+                if op == "parse":
+                    o["kind"] = kind
+                yield [reset(f"{sidp}/{kind}/{fmt}/{nw}/{c}"), o]
 
 
 def nack_many(g, sidp):
@@ -1254,6 +1306,7 @@ def c01(g, tier):
     yield from big_inputs(g, "C01/big", 2 if q else 4)
     yield from midsize_sessions(g, "C01/mid", ["sdes", "nack", "fir"])
     yield from nack_many(g, "C01/many")
+    yield from irregular_pad_fci_sweep(g, "C01/irr", op="parse_all")
     yield from item_type_sweep(g, "C01/types")
     yield from concat_sessions(g, 100 if q else 3000, "C01/concat")
     yield from many_chunks_sessions(g, "C01/chunks")
@@ -1471,6 +1524,7 @@ def c15(g, tier):
     yield from nack_iter_sessions(g, 400 if q else 10000, "C15/nit")
     yield from midsize_sessions(g, "C15/mid", ["nack", "fir"])
     yield from nack_many(g, "C15/many")
+    yield from irregular_pad_fci_sweep(g, "C15/irr")
     yield from big_sli_sessions(g, "C15/bigsli")
     yield from nack_pair_sessions(g, 300 if q else 8000, "C15/npair")
     yield from huge_direct_sessions(g, "C15/huge")
